@@ -50,8 +50,9 @@ DecodeInput(e) ==
         THEN LET fs == FragSamples(moofs, id, TrexDefault(trexs, id)) IN
              [ id |-> ToInt(id), known |-> fs.inDomain, samples |-> fs.samples,
                flags |-> (IF fs.largeMoof THEN {"moof with 64-bit header"} ELSE {})
-                         \cup (IF fs.defaultDurLater THEN {"default duration in a later fragment"} ELSE {})
-                         \cup (IF Len(trexs) > 1 THEN {"several trex"} ELSE {}) ]
+                         \cup (IF fs.usesTrex /\ \E a \in 1..Len(trexs), c \in 1..Len(trexs) :
+                                      trexs[a].default_sample_duration # trexs[c].default_sample_duration
+                               THEN {"movie-level default durations differ between tracks"} ELSE {}) ]
         ELSE [ id |-> ToInt(id), known |-> Consistent(tr.tbl),
                samples |-> IF Consistent(tr.tbl) THEN PlainSamples(tr.tbl) ELSE <<>>, flags |-> {} ]
   IN IF \E i \in 1..Len(mv.traks) : ~IsSmall(mv.traks[i].tkhd.track_id)
